@@ -264,7 +264,8 @@ def run(prog, chk):
     sc = prog.cls("ChannelStdinFile").methods.get("close")
     oks = False
     if sc is not None:
-        calls = [unparse(c) for c in walk_no_defs(sc.node) if isinstance(c, ast.Call) and not (isinstance(c.func, ast.Name) and c.func.id == "super")]
+        calls = [unparse(c) for c in walk_no_defs(sc.node) if isinstance(c, ast.Call) and not (isinstance(c.func, ast.Name) and c.func.id == "super")
+                 and not (isinstance(c.func, ast.Attribute) and c.func.attr in ("_log", "log"))]
         oks = calls == ["super().close()", "self.channel.shutdown_write()"]
     chk.ob("R4.stdin-close-flushes-before-eof", "ChannelStdinFile.close", oks, sc.loc if sc else "", "super().close() (flush) then channel.shutdown_write()")
     mk = prog.method("Channel", "makefile")
